@@ -130,6 +130,11 @@ Definition value_test_ref (s : sstate) (patience : Z) : float :=
   end.
 (* (returned bool, status afterwards) *)
 Definition done_ref (s : sstate) (iter_ok converged : bool) : bool * Z :=
+  if converged || negb (iter_ok && valid s) then (true, if converged && (iter_ok && valid s) then ST_CONVERGED else ST_FAILED)
+  else (false, sstatus s).
+(* the decision as it was BEFORE repo commit 85997bc (status = converged && valid ? converged : failed, whatever iter_ok):
+   kept to state what the fix excludes (C02_done_prefix_converged_after_failed_iteration, C02_LsLoop_Statements) *)
+Definition done_ref_prefix (s : sstate) (iter_ok converged : bool) : bool * Z :=
   if converged || negb (iter_ok && valid s) then (true, if converged && valid s then ST_CONVERGED else ST_FAILED)
   else (false, sstatus s).
 
@@ -137,7 +142,7 @@ Definition done_ref (s : sstate) (iter_ok converged : bool) : bool * Z :=
 Definition done_step (s : sstate) (fc gc : Z) (iter_ok converged : bool) : sstate * bool :=
   let s1 := set_calls s fc gc in
   let step_ok := src_done_step_ok iter_ok (valid s1) in
-  if src_done_stop converged step_ok then (set_status s1 (src_done_status converged (valid s1)), src_done_ret_stop)
+  if src_done_stop converged step_ok then (set_status s1 (src_done_status converged step_ok (valid s1)), src_done_ret_stop)
   else (s1, src_done_ret_go).
 
 (* ------------------------------------------------------------------------------------------------------------- *)
